@@ -1,12 +1,17 @@
+\* "wide": 3 profiles x 4 resources, every association instance possible,
+\* up to 3 instances, every server answer per profile; core query universe
 SPECIFICATION Spec
 CONSTANTS
   Variant = "code"
   PinnedAssert = FALSE
-  ResU = {"r1", "r2", "r3", "r4"}
-  ProfU = {"p1", "p2", "p3"}
+  EctpU <- EctpWide
+  RpU <- RpWide
+  A1U <- AWide
+  A2U <- AWide
   MaxEdges = 3
-  ModesU = {"impl", "unsup", "err"}
-  QuerySet = "full"
+  Modes1 <- AllModes
+  ModesO <- AllModes
+  QuerySet = "core"
 INVARIANT ImplRefinesReq
 INVARIANT ReqTotal
 INVARIANT WorldWellFormed
